@@ -1192,9 +1192,10 @@ func (db *DB) Close() error {
 	// Signal all goroutines.
 	close(db.closeC)
 
-	// Discard open transaction.
-	if db.tr != nil {
-		db.tr.Discard()
+	// Discard open transaction. The transaction may finish on its own
+	// meanwhile and clear db.tr, so read it once.
+	if tr := db.tr; tr != nil {
+		tr.Discard()
 	}
 
 	// Acquire writer lock.
